@@ -661,8 +661,8 @@ func (self *Value) findDeleteChild(path Path) (Node, int) {
 				valueLen = l
 			}
 		}
-		start = valueLen // start initial at the end of the message
-		end = 0          // end initial at the begin of the message
+		start = it.p.Read + valueLen // start initial at the end of the message (behind the length prefix)
+		end = 0                      // end initial at the begin of the message
 
 		// previous has change PathFieldName to PathFieldId
 		if path.Type() != PathFieldId {
